@@ -115,10 +115,26 @@ def run(c):
     pkt = Stub()
     for k, v in env.items():
         setattr(pkt, k, v)
+    fn = compile_expr_into_callable(e)
     try:
-        out['deferred'] = ['ok', enc(compile_expr_into_callable(e)(pkt=pkt))]
+        out['deferred'] = ['ok', enc(fn(pkt=pkt))]
     except Exception as ex:
         out['deferred'] = ['exc', type(ex).__name__]
+    # the same compiled expression evaluated again on further environments (state must not leak between evaluations)
+    out['again'] = []
+    for env2 in c.get('more_envs', []):
+        p2 = Stub()
+        for k, v in env2.items():
+            setattr(p2, k, dec(v))
+        try:
+            d2 = ['ok', enc(fn(pkt=p2))]
+        except Exception as ex:
+            d2 = ['exc', type(ex).__name__]
+        try:
+            g2 = ['ok', enc(eval('lambda pkt: ' + c['src_l'], {'_ch': lambda s, o: o[s], '_ite': lambda cc, a, b: a if bool(cc) else b})(p2))]
+        except Exception as ex:
+            g2 = ['exc', type(ex).__name__]
+        out['again'].append([d2, g2])
     try:
         out['eager'] = ['ok', enc(eval('lambda pkt: ' + c['src_l'], {'_ch': lambda s, o: o[s], '_ite': lambda cc, a, b: a if bool(cc) else b})(pkt))]
     except Exception as ex:
